@@ -175,10 +175,14 @@ void h_add(void) {
 }
 
 /* ================================================================ blm.build : any number of keys (loop contract, bloom_add by contract) */
+#ifndef BLM_NCAP
+#define BLM_NCAP ((size_t)1 << 20)   /* object-size cap only; blm.build.s uses small caps so that counterexample traces stay printable */
+#define BLM_BPKCAP 1024
+#endif
 void h_build(void) {
   ldb_bloom_t pol; ldb_buffer_t dst; ldb_slice_t *keys; size_t n = nondet_size(), pre = nondet_size(), bytes, bits, old_size; uint8_t *f;
-  ASSUME(n <= ((size_t)1 << 20) && pre <= ((size_t)1 << 20));
-  pol.bits_per_key = nondet_size(); ASSUME(pol.bits_per_key <= 1024);
+  ASSUME(n <= BLM_NCAP && pre <= BLM_NCAP);
+  pol.bits_per_key = nondet_size(); ASSUME(pol.bits_per_key <= BLM_BPKCAP);
   pol.k = nondet_size();
   keys = malloc((n + 1) * sizeof(ldb_slice_t)); ASSUME(keys != NULL);
   dst.data = malloc(pre + 1); ASSUME(dst.data != NULL); dst.size = pre; dst.alloc = pre + 1;
@@ -197,6 +201,23 @@ void h_build(void) {
   if (g_pb < pre) CHECK(dst.data[g_pb] == g_pbv, "bloom_build: what dst held before is kept");
   CHECK(g_hash_calls == n, "bloom_build: bloom_add runs once per key, on the new bit array with bits = 8 * bytes (its precondition is checked at the call)");
   if (g_t < n) CHECK(g_hash_tracked >= 1, "bloom_build: every key (ghost t) is added");
+  CANARY();
+}
+
+/* ================================================================ blm.rt (PARKED) : add then match on the same key => 1, symbolic
+ * hash / filter length / k / earlier filter content.  Does not finish: see the header (division instances). */
+void h_rt(void) {
+  ldb_bloom_t pol; ldb_slice_t key, filter; uint8_t kb[1]; size_t bytes = nondet_size(), k = nondet_size(); uint8_t *data; int r;
+  ASSUME(bytes >= 1 && bytes * 8 <= MAXLEN && k >= 1 && k <= 30);   /* 1 <= k <= 30: ldb_bloom_init (blm.init) */
+  data = malloc(bytes + 1); ASSUME(data != NULL);                    /* arbitrary earlier content: other keys' bits */
+  pol.k = k; pol.bits_per_key = nondet_size();
+  key.data = kb; key.size = 1; key.alloc = 0;
+  g_tdata = kb; g_tsize = 1; g_h = nondet_u32(); g_hash_calls = 0; g_hash_tracked = 0;
+  filter.data = data; filter.size = bytes + 1; filter.alloc = 0;
+  bloom_add(&pol, data, &key, (filter.size - 1) * 8);
+  data[bytes] = (uint8_t)k;
+  r = bloom_match(&pol, &filter, &key);
+  CHECK(r == 1, "bloom: a key that was added matches - for every filter length, every k in 1..30, every hash value, whatever else is in the filter");
   CANARY();
 }
 
